@@ -56,6 +56,7 @@ from psyclone.psyir.nodes.directive import (StandaloneDirective,
 from psyclone.psyir.nodes.intrinsic_call import IntrinsicCall
 from psyclone.psyir.nodes.loop import Loop
 from psyclone.psyir.nodes.psy_data_node import PSyDataNode
+from psyclone.psyir.nodes.reference import Reference
 from psyclone.psyir.nodes.routine import Routine
 from psyclone.psyir.nodes.schedule import Schedule
 from psyclone.psyir.nodes.operation import BinaryOperation
@@ -566,6 +567,7 @@ class ACCLoopDirective(ACCRegionDirective):
         # there is a collapse clause, by as many perfectly nested loops as
         # the collapse value.
         cursor = self.dir_body.children[0] if self.dir_body.children else None
+        outer_vars = []
         for depth in range(self._collapse if self._collapse else 1):
             if (cursor is None or len(cursor.parent.children) != 1 or
                     not isinstance(cursor, Loop)):
@@ -574,6 +576,14 @@ class ACCLoopDirective(ACCRegionDirective):
                     f"immediately nested loops as its collapse clause "
                     f"specifies (or one if there is none) but '{self}' is "
                     f"not at depth {depth}.")
+            if any(ref.symbol in outer_vars
+                   for expr in cursor.children[:3]
+                   for ref in expr.walk(Reference)):
+                raise GenerationError(
+                    f"{type(self).__name__} cannot collapse a loop whose "
+                    f"bounds depend on the variable of an outer collapsed "
+                    f"loop ('{cursor.variable.name}').")
+            outer_vars.append(cursor.variable)
             cursor = (cursor.loop_body.children[0]
                       if cursor.loop_body.children else None)
 
